@@ -46,6 +46,8 @@ func main() {
 			os.Exit(2)
 		}
 		s, _ := strconv.ParseUint(*seed, 10, 64)
+		os.Setenv("VH_TIER", *tier)
+		os.Setenv("VERIF_SEED", *seed)
 		os.Exit(runProperty(p, *tier, s, *driver, *fixed, *out, *rdir, *only))
 	case "child":
 		os.Exit(childMain(os.Args[2:]))
